@@ -53,7 +53,7 @@ theorem openFile_spec {m : MFS} (s : Side) {k : Key} (hr : Roots bk kk) (hg : OS
       have hc := ((hr.pkey s).append hk).getLast hne
       have hnone : m.get ((osRoot bk kk s ++ k).dropLast ++ [(osRoot bk kk s ++ k).getLast hne]) = none := by
         rw [dropLast_append_getLast' hne]; exact hn
-      have hgood := good_set_new (n' := .file "" ⟨(perm &&& 0o777) &&& (0o7777 ^^^ m.umask), 0, (inheritGid m (osRoot bk kk s ++ k).dropLast).1, .fresh⟩)
+      have hgood := good_set_new (n' := .file "" ⟨(perm &&& 0o7777) &&& (0o7777 ^^^ m.umask), 0, (inheritGid m (osRoot bk kk s ++ k).dropLast).1, .fresh⟩)
         hg hp hc hnone (mode_and_lt _ _ _ (by decide))
       rw [dropLast_append_getLast' hne] at hgood
       exact ⟨good_touchDir hgood _, (EqOff.set _ _ _).touch _,
